@@ -378,6 +378,51 @@ theorem C06_full_false_F06 : ¬ C06_full := by
     each of the two candidate entries has exactly one receiver -/
 example : ¬ NoF06 (subscribers (run (init {}) f06History).topics f06Msg.topic) := by decide
 
+/-! ## The delivery theorem with shared subscriptions on reachable states, and for the publish ops -/
+
+/-- **`C03_delivery_exact_reach_partial` without the hypothesis `shared = []`.**  For every state `s` reached by a
+    sequential history (`ReachSeq`), every QoS 0 application message and every connection `n`:
+
+    1. a PUBLISH is written to `n` iff `EntitledShared s pk n` (plain entry or picked member; F03 merge explicit);
+    2. whoever is written is entitled through a plain subscription — declaratively: `EntitledF03`, the index holds a
+       plain subscription of the client whose filter `specMatch`es the topic — or as the picked member of a candidate
+       entry (`EntitledPicked`); outside the F03 situation across plain and shared subscriptions
+       (`NoLocalMixedShared`) this disjunction is exact;
+    3. at most one PUBLISH per connection; 4. every output is an inline delivery or a copy of the message. -/
+theorem C06_delivery_exact_reach_partial (caps : Caps) (s : Server) (hr : ReachSeq caps s)
+    (pk : Msg) (hig : pk.ignore = false) (ht : pk.type = 3) (hq : pk.qos = 0)
+    (hne : pk.topic ≠ []) (hnh : ∀ t ∈ splitLevels pk.topic, t ≠ [hash]) (n : Nat) :
+    ((∃ ver m me, Out.wrote n (.publish ver m me) ∈ (publishToSubscribers s pk).2) ↔ EntitledShared s pk n) ∧
+    (EntitledShared s pk n → EntitledF03 s pk n ∨ EntitledPicked s pk n) ∧
+    (¬ NoLocalMixedShared s pk → (EntitledShared s pk n ↔ EntitledF03 s pk n ∨ EntitledPicked s pk n)) ∧
+    ((publishToSubscribers s pk).2.filterMap pubConn).count n ≤ 1 ∧
+    ∀ x ∈ (publishToSubscribers s pk).2, (∃ id, x = Out.inline id pk.topic pk.payload) ∨ IsCopy pk x := by
+  obtain ⟨h1, h2, h3, h4, h5⟩ := publishToSubscribers_writes_exact_shared s hr.inv.2.1 hr.inv.2.2.1.distinct pk hig ht hq n
+  have e := entitledVia_iff_F03 s hr.inv.1.idx pk hne hnh (C03_one_entry_per_client s.topics pk.topic) n
+  rw [e] at h2 h3
+  exact ⟨h1, h2, h3, h4, h5⟩
+
+/-- **`recv_publish_delivery_exact` without the hypothesis `shared = []`**: the op
+    `step s (.recv conn (PUBLISH QoS 0 …))` of client object `i`, accepted (`AcceptedQ0`), writes a PUBLISH to exactly
+    the connections entitled (`EntitledShared`) in the state in which the message is routed (`retainedState`: the
+    state before the op, the retained store updated if the retain flag is set), at most once each, and nothing else
+    but inline deliveries. -/
+theorem recv_publish_delivery_exact_shared (s : Server) (hs : SyncInv s) (hw : WF s) (hcm : ConnMap s)
+    (conn i : Nat) (dup retain : Bool) (topic payload : Str) (me : Nat)
+    (hc : assocGet s.connOf conn = some i) (h : AcceptedQ0 s i topic) (n : Nat) :
+    ((∃ ver m mes, Out.wrote n (.publish ver m mes) ∈
+        (step s (.recv conn (.publish 0 dup retain 0 topic payload me none))).2) ↔
+      EntitledShared (retainedState s (inboundMsg s i 0 dup retain 0 topic payload me))
+        (inboundMsg s i 0 dup retain 0 topic payload me) n) ∧
+    ((step s (.recv conn (.publish 0 dup retain 0 topic payload me none))).2.filterMap pubConn).count n ≤ 1 ∧
+    ∀ x ∈ (step s (.recv conn (.publish 0 dup retain 0 topic payload me none))).2,
+      (∃ id, x = Out.inline id topic payload) ∨ IsCopy (inboundMsg s i 0 dup retain 0 topic payload me) x := by
+  obtain ⟨_, iw, ic⟩ := retainedState_inv (inboundMsg s i 0 dup retain 0 topic payload me) hs hw hcm
+  rw [step_recv_publish_accepted_shared s conn i dup retain topic payload me hc h]
+  obtain ⟨h1, _, _, h4, h5⟩ := publishToSubscribers_writes_exact_shared _ iw ic.distinct
+    (inboundMsg s i 0 dup retain 0 topic payload me) rfl rfl rfl n
+  exact ⟨h1, h4, h5⟩
+
 /-! ## Non-vacuity
 
 `c03History` (five network clients, an inline subscriber on `a/b`, a read denial) extended with two share groups —
@@ -478,6 +523,8 @@ end Mochi.Broker
 #print axioms Mochi.Broker.C06_one_receiver_per_candidate_seq_partial
 #print axioms Mochi.Broker.C06_one_receiver_per_group_seq_partial
 #print axioms Mochi.Broker.C06_full_false_F06
+#print axioms Mochi.Broker.C06_delivery_exact_reach_partial
+#print axioms Mochi.Broker.recv_publish_delivery_exact_shared
 #print axioms Mochi.Broker.c06State_reach
 #print axioms Mochi.Broker.c06_hyps
 #print axioms Mochi.Broker.publishToSubscribers_writes_exact_shared
